@@ -18,7 +18,7 @@ RULE = (
     "permutations, rotating); the four emptiness combinations are driven through each input type; every non-empty case is "
     "re-evaluated with the foreground re-partitioned (all instances merged, every voxel its own instance, random relabelling). "
     "Non-trivial = both foregrounds non-empty and different, or an empty side; distinct = hash of (arrays, subset, handler, input type)."
-    ' Further families: a long-lived evaluator and default-handler evaluators re-probed every 20 cases (with a 1-D sample and single-metric handlers constructed in between); foregrounds 30000..140000 voxels apart.'
+    ' Further families: a long-lived evaluator and default-handler evaluators re-probed every 20 cases (with a 1-D sample and single-metric handlers constructed in between); foregrounds 30000..140000 voxels apart; evaluators with 1-3 class groups (plain and merge, also with label values that the dtype of the arrays cannot hold), every group judged on the maps restricted to its labels.'
 )
 ASSUMPTIONS = ["clDice: scikit-image skeleton trusted; judged only when both skeletons are non-empty", "ASSD compared with relative 1e-9"]
 MINIMUM = {"C13.values_judged": 3000, "C13.empty_side_judged": 300, "C13.repartition_judged": 500}
@@ -36,6 +36,8 @@ def cases(tier, seed):
         yield {"fam": "empty", "i": i}
     for i in range(12 if tier == "quick" else 120):
         yield {"fam": "long", "i": i}
+    for i in range(240 if tier == "quick" else 6000):
+        yield {"fam": "groups", "i": i}
 
 
 def setup(ctx):
@@ -202,10 +204,61 @@ def repartitions(pred, refa, r, it):
     return out
 
 
+GROUP_SETS = [
+    {"a": ([1], "plain"), "b": ([2, 3], "plain")},
+    {"a": ([1, 2], "merge"), "b": ([3], "plain"), "c": ([4], "plain")},
+    # a study-wide definition that lists label values the arrays of this data set cannot hold (uint8 arrays, label 257 / 258 / 65537)
+    {"a": ([1], "plain"), "lesion": ([2, 257], "plain")},
+    {"organ": ([1, 258], "merge"), "rest": ([2, 3, 4], "plain")},
+    {"a": ([3, 65537], "plain"), "b": ([1, 2], "merge")},
+    {"all": ([1, 2, 3, 4], "merge")},
+]
+
+
+def groups_case(ctx, i):
+    """every group's global_bin_<m> is metric m on the two maps restricted to the group's labels and binarised"""
+    r = gen.rng(ctx.seed, "c13g", i)
+    gs = GROUP_SETS[i % len(GROUP_SETS)]
+    it = ["UNMATCHED_INSTANCE", "SEMANTIC", "MATCHED_INSTANCE"][(i // len(GROUP_SETS)) % 3]
+    pred, refa, f = gen.random_pair(ctx.seed, 9500 + i, dtype=np.uint8, max_inst=4, family=["rects", "blobs", "shift", "split", "noise"][i % 5])
+    pred, refa = np.minimum(pred, 4), np.minimum(refa, 4)
+    if i % 7 == 3:
+        pred = pred.astype(np.uint16)
+        refa = refa.astype(np.uint16)
+    if it == "MATCHED_INSTANCE":
+        pred = gen.make_matched(pred, refa, r).astype(refa.dtype)
+        pred = np.where(pred > 4, 0, pred).astype(refa.dtype)
+    defined = sorted({x for l, _ in gs.values() for x in l})
+    pred = np.where(np.isin(pred, defined), pred, 0).astype(refa.dtype)  # the library refuses labels that no group defines (C12)
+    refa = np.where(np.isin(refa, defined), refa, 0).astype(refa.dtype)
+    gms = [m for m in SUBSETS[i % len(SUBSETS)] if m != "clDSC" or refa.ndim in (2, 3)] or ["DSC"]
+    h = handler_for(int(r.integers(0, 10000)))
+    cfg = {"input": it, "backend": [None, "cc3d", "scipy"][i % 3], "metrics": ["DSC", "IOU"], "global": gms, "handler": {m: h[m] for m in GM}, "std": "NAN",
+           "matcher": None if it == "MATCHED_INSTANCE" else {"kind": "naive", "metric": "IOU", "thr": 0.5},
+           "groups": {n: {"labels": list(l), "kind": k} for n, (l, k) in gs.items()}}
+    ctx.count("evaluations")
+    try:
+        with np.errstate(all="ignore"):
+            out = pan.evaluate(pan.make_evaluator(cfg), pred.copy(), refa.copy())
+    except Exception as e:  # noqa: BLE001
+        ctx.viol("evaluate_raised", {"pred": pred, "ref": refa, "cfg": cfg, "exc": repr(e)[:300]}, features={"input": it, "exc": type(e).__name__, "groups": True})
+        return
+    for n, (labels, kind) in gs.items():
+        res = pan.read_result(out[n][0], cfg["metrics"])
+        pg = np.where(np.isin(pred, labels), pred, 0)
+        rg = np.where(np.isin(refa, labels), refa, 0)
+        ctx.count("C13.group_values_judged")
+        if not judge(ctx, res, pg, rg, gms, h, {"pred": pred, "ref": refa, "cfg": cfg, "group": n}, {"input": it, "groups": True, "group_kind": kind}):
+            return
+    ctx.nontrivial("groups", gen.arr_key(pred, refa), i)
+
+
 def run(case, ctx):
     fam, i = case["fam"], case["i"]
     if ctx._persist is None or ctx.cases_run % 20 == 0:
         persistence_check(ctx)
+    if fam == "groups":
+        return groups_case(ctx, i)
     r = gen.rng(ctx.seed, "c13", fam, i)
     it = ["UNMATCHED_INSTANCE", "SEMANTIC", "MATCHED_INSTANCE"][i % 3]
     gms = SUBSETS[i % len(SUBSETS)]
